@@ -77,6 +77,17 @@ def _mat(rec):
         return G.matrix(rec["n"], rec["s"])
     if k == "series":
         return G.series(rec["T"], rec["n"], rec["s"])
+    if k == "pseries":
+        # near-periodic series with a small drift (twins exist)
+        r = G.rng_of(rec["s"])
+        T, n = rec["T"], rec["n"]
+        X = np.zeros((T, n))
+        for j in range(n):
+            P = r.choice((3, 4, 5))
+            base = [round(r.uniform(-2, 2), 2) for _ in range(P)]
+            for t in range(T):
+                X[t, j] = base[t % P] + 1e-3 * t + 1e-5 * j
+        return X
     if k == "series1":
         x = G.series(rec["T"], 1, rec["s"])[:, 0]
         return x.astype(rec["dt"]) if rec.get("dt") else x
@@ -1014,8 +1025,8 @@ class SurrSpec(Spec):
         T = r.randrange(10, 24)
         n = r.randrange(1, 4)
         return {"n": n, "T": T,
-                "X": {"k": "series", "T": T, "n": n,
-                      "s": r.randrange(10 ** 9)},
+                "X": {"k": r.choice(("series", "pseries", "pseries")),
+                      "T": T, "n": n, "s": r.randrange(10 ** 9)},
                 "normalized": False, "emb": None}
 
     def construct(self, m):
@@ -1029,22 +1040,48 @@ class SurrSpec(Spec):
         if m["normalized"]:
             obj.normalize_original_data()
         if m["emb"] is not None:
-            obj.embedding = mat(m["emb"])
+            e = m["emb"]
+            if e.get("norm_at_embed", m["normalized"]) != m["normalized"]:
+                # embedded before the data were normalised: the embedding
+                # of the un-normalised data stays in place
+                raw = self.cls()(_mat(m["X"]).T.copy(), silence_level=3)
+                obj.embedding = raw.embed_time_series_array(
+                    raw.original_data, e["dim"], e["delay"])
+            else:
+                obj.embedding = obj.embed_time_series_array(
+                    obj.original_data, e["dim"], e["delay"])
 
     def mutators(self):
         def u_n(m, a, obj):
             m["normalized"] = True
 
         def u_e(m, a, obj):
-            m["emb"] = a["E"]
+            m["emb"] = {"dim": a["dim"], "delay": a["delay"],
+                        "norm_at_embed": m["normalized"]}
+
+        def g_e(r, m):
+            return {"dim": r.choice((1, 2, 3)), "delay": r.choice((1, 2)),
+                    "thr": r.choice((0.3, 0.8))}
+
+        def a_emb(obj, a, m):
+            obj.embedding = obj.embed_time_series_array(
+                obj.original_data, a["dim"], a["delay"])
+
+        def a_ts(obj, a, m):
+            # generating twin surrogates (re-)embeds the current data as a
+            # side effect: a state change of the object
+            np.random.seed(a["dim"] * 7 + a["delay"])
+            obj.twin_surrogates(a["dim"], a["delay"], a["thr"], 2)
+
+        def u_ts(m, a, obj):
+            # the embedding belongs to the data as they are now
+            m["emb"] = {"dim": a["dim"], "delay": a["delay"],
+                        "norm_at_embed": m["normalized"]}
         return [
             Mut("normalize_original_data", lambda r, m: {},
                 lambda obj, a, m: obj.normalize_original_data(), u_n),
-            Mut("embedding=", lambda r, m: {
-                "E": {"k": "series", "T": m["T"], "n": 2,
-                      "s": r.randrange(10 ** 9)}},
-                lambda obj, a, m: setattr(obj, "embedding", mat(a["E"])),
-                u_e)]
+            Mut("embedding=", g_e, a_emb, u_e),
+            Mut("twin_surrogates", g_e, a_ts, u_ts)]
 
 
 class ClimateDataSpec(Spec):
